@@ -434,6 +434,7 @@ func inlineCall(prog *load.Program, pk *load.Package, f *ast.File, src []byte, t
 	}
 	// facts about the body
 	assigned := map[types.Object]bool{}
+	addrTaken := map[types.Object]bool{} // address taken, or assigned inside a nested function literal
 	declared := map[string]bool{}
 	hasReturn, hasDefer, hasRecover := false, false, false
 	var inspectBody func(n ast.Node, depth int)
@@ -468,6 +469,9 @@ func inlineCall(prog *load.Program, pk *load.Package, f *ast.File, src []byte, t
 					if id, ok := ast.Unparen(l).(*ast.Ident); ok {
 						if o := h.pk.Info.Uses[id]; o != nil {
 							assigned[o] = true
+							if depth > 0 {
+								addrTaken[o] = true
+							}
 						}
 						if h.pk.Info.Defs[id] != nil {
 							declared[id.Name] = true
@@ -485,6 +489,7 @@ func inlineCall(prog *load.Program, pk *load.Package, f *ast.File, src []byte, t
 					if id, ok := ast.Unparen(x.X).(*ast.Ident); ok {
 						if o := h.pk.Info.Uses[id]; o != nil {
 							assigned[o] = true // address taken: treat as assigned
+							addrTaken[o] = true
 						}
 					}
 				}
@@ -605,6 +610,39 @@ func inlineCall(prog *load.Program, pk *load.Package, f *ast.File, src []byte, t
 			argText = "*" + argText
 		}
 		canSubst := simpleArg(p.arg) && !assigned[p.obj] && p.ptrFix != "*"
+		// copy-in / copy-out: `x.f = h(x.f, ...)` where the helper updates its parameter in place and nothing else handed to
+		// it can reach x: the parameter is the location itself
+		if !canSubst && assigned[p.obj] && p.ptrFix == "" && len(stack) >= 2 {
+			if as, isAs := stack[len(stack)-2].(*ast.AssignStmt); isAs && as.Tok == token.ASSIGN && len(as.Lhs) == 1 && len(as.Rhs) == 1 && as.Rhs[0] == ast.Expr(call) {
+				if _, isSel := ast.Unparen(p.arg).(*ast.SelectorExpr); isSel && simpleArg(p.arg) {
+					lhsText := string(src[tf.Offset(as.Lhs[0].Pos()):tf.Offset(as.Lhs[0].End())])
+					root := p.arg
+					for {
+						sel, ok := ast.Unparen(root).(*ast.SelectorExpr)
+						if !ok {
+							break
+						}
+						root = sel.X
+					}
+					rootID, _ := ast.Unparen(root).(*ast.Ident)
+					alone := rootID != nil && lhsText == argText && !addrTaken[p.obj]
+					for _, q := range params {
+						if q.obj == p.obj {
+							continue
+						}
+						ast.Inspect(q.arg, func(m ast.Node) bool {
+							if id, ok := m.(*ast.Ident); ok && rootID != nil && id.Name == rootID.Name {
+								alone = false
+							}
+							return true
+						})
+					}
+					if alone {
+						canSubst = true
+					}
+				}
+			}
+		}
 		if canSubst {
 			// no declaration of the body may capture a name the argument mentions
 			ast.Inspect(p.arg, func(m ast.Node) bool {
